@@ -26,6 +26,7 @@ func main() {
 	keep := fs.Bool("keep", false, "keep SMT files")
 	verbose := fs.Bool("v", false, "verbose")
 	only := fs.String("only", "", "only obligations whose name contains this")
+	evOut := fs.String("evidence", "", "evidence file (default /verif/evidence/<property>.json)")
 	fs.Parse(os.Args[2:])
 	switch cmd {
 	case "gen":
@@ -126,7 +127,7 @@ func main() {
 			os.Exit(1)
 		}
 	case "check":
-		os.Exit(runCheck(*repo, *verif, *prop, *tier, *secs, *keep))
+		os.Exit(runCheck(*repo, *verif, *prop, *tier, *secs, *keep, *evOut))
 	default:
 		fmt.Fprintln(os.Stderr, "unknown command", cmd)
 		os.Exit(2)
